@@ -1935,7 +1935,21 @@ def nditer(arrs, **kw):
         for v in arrs.flat_values():
             yield _It(v)
         return
-    flats = [asarray(a).flat_values() for a in arrs]
+    arrs = [asarray(a) for a in arrs]
+    order = kw.get('order', 'K')
+    fortran = order == 'F'
+    if order in ('K', 'A') and arrs and _bi.all(a.ndim == 2 for a in arrs):
+        # numpy's default order 'K' follows memory: the iteration is column-major iff every operand that has two real axes is laid out
+        # with the row stride smaller than the column stride (a C-ordered operand wins any conflict) - npyiter_find_best_axis_ordering
+        votes = []
+        for a in arrs:
+            if a.shape[0] > 1 and a.shape[1] > 1:
+                idx = a._idx
+                sy, sx = _bi.abs(int(idx[1, 0]) - int(idx[0, 0])), _bi.abs(int(idx[0, 1]) - int(idx[0, 0]))
+                if sy and sx:
+                    votes.append(sx > sy)
+        fortran = bool(votes) and _bi.all(votes)
+    flats = [(a.T if fortran and a.ndim == 2 else a).flat_values() for a in arrs]
     # python containers hash their keys: when any operand is symbolic, concrete numbers are lifted to constant symbolic
     # scalars too so that every value hashes alike and equality alone decides dict / set / Counter membership
     if _bi.any(_is_sym(v) for f in flats for v in f):
